@@ -81,7 +81,31 @@ def preselectH (j : Json) : R Json := do
   | none => return jObj [("error", jStr "ConfigurationError")]
   | some l => return jObj [("ok", jList jStr l)]
 
+/-- auto-design of one Multiband_amplifier node: permitted entries, preselected members, per-band picks with the
+acceptable candidates of each band (for the NF-tie guard), candidate node types -/
+def multiDesignH (j : Json) : R Json := do
+  let lib ← fList getSpec j "lib"
+  let c ← getCtx (← fld j "ctx")
+  let bts ← fList getBT j "targets"
+  let ext ← fF j "ext"
+  let ok ← fBool j "raman_allowed"
+  let rm := nodeRestrictionsMulti lib c (bts.map (fun bt => bt.band))
+  match preselect lib ext rm bts with
+  | none => return jObj [("error", jStr "ConfigurationError"), ("permitted", jList jStr rm)]
+  | some redfa =>
+    let bands := bts.map (fun bt =>
+      let lib' := selectionLibrary lib (bandRestrictions lib redfa bt.band)
+      let acc := acceptable (edfaList lib' bt.gain bt.power ext) (ramanList lib' ok bt.gain bt.power ext)
+      jObj [("restrictions", jList jStr (bandRestrictions lib redfa bt.band)),
+            ("pick", jOpt jStr (bandPick lib ext ok redfa bt)),
+            ("acceptable", jList jCand (acc.getD []))])
+    let base := [("permitted", jList jStr rm), ("preselected", jList jStr redfa), ("bands", Json.arr bands.toArray)]
+    match multibandDesign lib ext c ok bts with
+    | none => return jObj (base ++ [("error", jStr "ConfigurationError")])
+    | some d => return jObj (base ++ [("picks", jList jStr d.picks), ("candidates", jList jStr d.candidates)])
+
 def handlers : List (String × Handler) :=
-  [("c10.restrictions", restrictionsH), ("c10.raman", ramanH), ("c10.select", selectH), ("c10.preselect", preselectH)]
+  [("c10.restrictions", restrictionsH), ("c10.raman", ramanH), ("c10.select", selectH), ("c10.preselect", preselectH),
+   ("c10.multidesign", multiDesignH)]
 
 end Gnpy.Drv.C10
